@@ -103,6 +103,9 @@ Section Structural.
   (* ----- the depth property: truncate, or pad with NaN *)
   Definition set_depth_row (d : nat) (r : row) : row := firstn d r ++ nans (d - length r).
   Definition set_depth (d : nat) (s : series) : series := rowwise (set_depth_row d) s.
+  (* the same for a column that says what its new cells hold (created with defaultnan=False: 0 instead of NaN) *)
+  Definition set_depth_row_pad (pad : sample) (d : nat) (r : row) : row := firstn d r ++ repeat pad (d - length r).
+  Definition set_depth_pad (pad : sample) (d : nat) (s : series) : series := rowwise (set_depth_row_pad pad d) s.
 
   (* ----- reduce: one value per row *)
   Definition reduce (op : row -> sample) (s : series) : list sample := map op s.
@@ -112,7 +115,7 @@ Arguments isnan {V}. Arguments nans {V}. Arguments trailing {V}. Arguments endlo
 Arguments lock_row {V}. Arguments lock {V}. Arguments thr_runs {V}. Arguments threshold_row {V}.
 Arguments threshold {V}. Arguments mark {V}. Arguments window_row {V}. Arguments window {V}.
 Arguments concatenate {V}. Arguments at_time {V}. Arguments normalize_time_row {V}. Arguments normalize_time {V}.
-Arguments set_depth_row {V}. Arguments set_depth {V}. Arguments reduce {V}. Arguments rowwise {V}.
+Arguments set_depth_row {V}. Arguments set_depth {V}. Arguments set_depth_row_pad {V}. Arguments set_depth_pad {V}. Arguments reduce {V}. Arguments rowwise {V}.
 
 (* ---------- arithmetic functions, over exact rationals -------------------- *)
 Definition qrow := list (option Q).
